@@ -31,9 +31,15 @@ type VerifRig struct {
 	toClient, toServer     verifSink    // bytes written towards each endpoint
 
 	drained  atomic.Int64 // frames taken from either output channel during the current step
-	stuck    atomic.Bool  // set when a step exceeded its budget: writers stop draining
-	debug    bool
-	closeAll chan struct{}
+	stepDone atomic.Bool  // processFrame of the current step has returned
+	// LagWriters makes the writer loops as slow as the output channels allow: while processFrame runs
+	// they take a frame only when a channel is full. This is one legal schedule of the production code
+	// (a destination that is briefly unwritable); it exposes released frames that still share memory
+	// with the relay.
+	LagWriters bool
+	stuck      atomic.Bool // set when a step exceeded its budget: writers stop draining
+	debug      bool
+	closeAll   chan struct{}
 }
 
 type verifSink struct {
@@ -67,6 +73,7 @@ func (v verifSync) send(*http2.Framer) error { close(v.done); return nil }
 // processor factories: frames go straight to the opposite relay's sink).
 func NewVerifRig() *VerifRig {
 	g := &VerifRig{closeAll: make(chan struct{})}
+	g.stepDone.Store(true)
 	cf := http2.NewFramer(&g.toClient, &g.fromClient)
 	sf := http2.NewFramer(&g.toServer, &g.fromServer)
 	cToS := newRelay(ClientToServer, "client", "server", cf, sf, &g.debug)
@@ -89,6 +96,14 @@ func NewVerifRig() *VerifRig {
 // from r.output, send it on r.dest under destMu).
 func (g *VerifRig) writer(r *relay) {
 	for {
+		for g.LagWriters && !g.stepDone.Load() && len(r.output) < cap(r.output) {
+			select {
+			case <-g.closeAll:
+				return
+			default:
+				time.Sleep(20 * time.Microsecond)
+			}
+		}
 		select {
 		case f := <-r.output:
 			if g.stuck.Load() {
@@ -135,6 +150,8 @@ func (g *VerifRig) Step(fromClient bool, raw []byte, maxFrames int64, maxWait ti
 		return st
 	}
 	g.drained.Store(0)
+	g.stepDone.Store(false)
+	defer g.stepDone.Store(true)
 	done := make(chan error, 1)
 	go func() { done <- r.processFrame(f) }()
 	deadline := time.After(maxWait)
@@ -158,6 +175,7 @@ wait:
 			return st
 		}
 	}
+	g.stepDone.Store(true)
 	for _, rr := range []*relay{g.cToS, g.sToC} {
 		s := verifSync{make(chan struct{})}
 		rr.output <- s
